@@ -12,6 +12,7 @@ The translator is AST based: comments, docstrings, formatting do not matter.
 from __future__ import annotations
 
 import ast
+import copy
 import dataclasses
 
 
@@ -397,10 +398,82 @@ def translate_function(fn: ast.FunctionDef, lean_name: str, params: list[tuple[s
     return f"def {lean_name} {ps} : Except Err {ret_type} :=\n  {body}\n"
 
 
+def _is_const_expr(node) -> bool:
+    """int / str / bytes literals and arithmetic over int literals (what a module- or class-level constant is)"""
+    if isinstance(node, ast.Constant):
+        return isinstance(node.value, (int, str, bytes)) and not isinstance(node.value, bool) or isinstance(node.value, bool)
+    if isinstance(node, ast.BinOp):
+        return _is_const_expr(node.left) and _is_const_expr(node.right)
+    if isinstance(node, ast.UnaryOp):
+        return _is_const_expr(node.operand)
+    return False
+
+
+def _simple_assignments(body) -> dict:
+    out = {}
+    for st in body:
+        tgt = val = None
+        if isinstance(st, ast.Assign) and len(st.targets) == 1 and isinstance(st.targets[0], ast.Name):
+            tgt, val = st.targets[0].id, st.value
+        elif isinstance(st, ast.AnnAssign) and isinstance(st.target, ast.Name) and st.value is not None:
+            tgt, val = st.target.id, st.value
+        if tgt is not None and _is_const_expr(val):
+            out[tgt] = val
+    return out
+
+
+class _Inliner(ast.NodeTransformer):
+    """semantics-preserving normalisation before translation: module-level constants are written out, and a call of a private
+    helper method of the same class whose body is a single `return <expr>` is replaced by that expression"""
+
+    def __init__(self, consts, helpers, local_names):
+        self.consts, self.helpers, self.locals = consts, helpers, local_names
+
+    def visit_Name(self, node):
+        if isinstance(node.ctx, ast.Load) and node.id in self.consts and node.id not in self.locals:
+            return ast.copy_location(copy.deepcopy(self.consts[node.id]), node)
+        return node
+
+    def visit_Call(self, node):
+        self.generic_visit(node)
+        f = node.func
+        if isinstance(f, ast.Attribute) and isinstance(f.value, ast.Name) and f.value.id in ("self", "cls") and f.attr in self.helpers \
+                and not node.keywords:
+            params, expr = self.helpers[f.attr]
+            if len(params) == len(node.args):
+                env = dict(zip(params, node.args))
+
+                class Sub(ast.NodeTransformer):
+                    def visit_Name(self, n):
+                        if isinstance(n.ctx, ast.Load) and n.id in env:
+                            return copy.deepcopy(env[n.id])
+                        return n
+                return ast.copy_location(Sub().visit(copy.deepcopy(expr)), node)
+        return node
+
+
+def normalise_function(tree: ast.Module, cls_node: ast.ClassDef, fn: ast.FunctionDef) -> ast.FunctionDef:
+    consts = _simple_assignments(tree.body)
+    helpers = {}
+    for item in cls_node.body:
+        if isinstance(item, ast.FunctionDef) and item is not fn and item.name.startswith("_") and not item.decorator_list:
+            body = [s for s in item.body if not (isinstance(s, ast.Expr) and isinstance(s.value, ast.Constant))]
+            a = item.args
+            if len(body) == 1 and isinstance(body[0], ast.Return) and body[0].value is not None and not a.vararg and not a.kwarg \
+                    and not a.kwonlyargs and not a.defaults and a.args and a.args[0].arg in ("self", "cls"):
+                helpers[item.name] = ([x.arg for x in a.args[1:]], body[0].value)
+    local_names = {a.arg for a in fn.args.args}
+    for n in ast.walk(fn):
+        if isinstance(n, ast.Name) and isinstance(n.ctx, ast.Store):
+            local_names.add(n.id)
+    out = _Inliner(consts, helpers, local_names).visit(copy.deepcopy(fn))
+    return ast.fix_missing_locations(out)
+
+
 def find_function(tree: ast.Module, cls: str, fn: str) -> ast.FunctionDef:
     for node in tree.body:
         if isinstance(node, ast.ClassDef) and node.name == cls:
             for item in node.body:
                 if isinstance(item, ast.FunctionDef) and item.name == fn:
-                    return item
+                    return normalise_function(tree, node, item)
     raise Untranslatable(f"{cls}.{fn} not found")
